@@ -6,6 +6,8 @@
 (* must describe the spec's state.                                                            *)
 EXTENDS Any, Json, IOUtils
 
+CONSTANT Strict    \* TRUE: also demand the documented (not property-relevant) behaviour, see Any!CastDocOK - a rejection is advisory
+
 VARIABLE l     \* next line of the trace to be explained
 
 JsonTrace == ndJsonDeserialize(IOEnv.TRACE)
@@ -45,7 +47,7 @@ TReset(e) ==
     /\ a' = [k \in Anys |-> RAW]
     /\ u' = [k \in Anys |-> NoU]
     /\ lt' = NoObjects(e.a.hi)
-    /\ env' = [noexc |-> e.a.noexc]
+    /\ env' = [noexc |-> e.a.noexc, mov |-> e.a.mov]
     /\ pre' = [a |-> a, u |-> u, lt |-> lt]
     /\ last' = [op |-> "Reset", k |-> 1, a |-> e.a, ev |-> <<>>, res |-> NoRes]
 
@@ -66,7 +68,9 @@ Explain(e) ==
                  no_leak_no_dangling_independent |-> wf,
                  postcondition |-> IF F.ok /\ preok /\ wf
                                      THEN Post(e.op, e.k, e.a, World(a, u, lt), World(x, U, F.L), e.res, Threw(e.ev)) ELSE FALSE,
-                 observers_consistent |-> IF F.ok THEN StOK(e.st, x, U, F.L) ELSE FALSE]>>)
+                 observers_consistent |-> IF F.ok THEN StOK(e.st, x, U, F.L) ELSE FALSE,
+                 storage_returned |-> HeapOK(x, e.heap),
+                 documented_cast_events |-> CastDocOK(e.op, e.k, e.a, e.ev, e.res)]>>)
 
 TNext ==
     /\ l <= Len(JsonTrace)
@@ -79,6 +83,8 @@ TNext ==
          ELSE IF l = ExplainAt THEN Explain(e) /\ UNCHANGED vars
          ELSE /\ Step(e.op, e.k, e.a, e.ev, e.res, A2of(e.st), U2of(e.st), Spc2of(e.spc))
               /\ StOK(e.st, a', u', lt')
+              /\ HeapOK(a', e.heap)
+              /\ Strict => CastDocOK(e.op, e.k, e.a, e.ev, e.res)
     /\ l' = l + 1
 
 TSpec == TInit /\ [][TNext]_<<vars, l>>
